@@ -76,7 +76,7 @@ func EncodeIP6(p []byte, hopLimit uint8, srcIP netip.Addr, dstIP netip.Addr) IP6
 func (p IP6) SetPayload(b []byte, nextHeader uint8) IP6 {
 	binary.BigEndian.PutUint16(p[4:6], uint16(len(b)))
 	p[6] = nextHeader
-	return p[:len(p)+len(b)]
+	return p[:IP6HeaderLen+len(b)]
 }
 
 func (p IP6) AppendPayload(b []byte, nextHeader uint8) (IP6, error) {
